@@ -6,7 +6,10 @@
    those constants breaks that lemma at make.  The transducer table is not used here. *)
 From Coq Require Import NArith List Bool Lia.
 Import ListNotations.
-From Mds Require Import Gen.ShellTable Shell.ShellModel Shell.ShellSpec.
+From Mds Require Import Gen.ShellTable Shell.ShellModel Shell.ShellSpec Shell.ShellSkel.
+(* the proofs are about the hand transcription of the skeleton; ShellFinal.v transports them to the
+   model assembled from the generated skeleton facts (ShellSkel.v: model = transcription) *)
+Import ShellSkel.Hand.
 Local Open Scope N_scope.
 
 (* ---- the tie between the standard's set and the source's constants ---- *)
